@@ -70,6 +70,8 @@ const (
 	fpRegress     = "store-regressed-to-older-version"
 	fpForeignDone = "batchwritedone-from-another-writer"
 	fpDoneFailed  = "done-after-failed-commit"
+	fpHandle      = "handle-used-after-commit"
+	fpStopReent   = "stop-blocked-forever:writer-blocked-in-call-from-callback"
 
 	// store-fault family: every finding of a run in which the injected store fault fired and the
 	// process carried on gets this prefix (a swallowed store error is a defect of its own)
@@ -205,6 +207,7 @@ type mon struct {
 	hev        atomic.Int64 // caller-side events (Enqueue/Stop/Flush calls and returns, yield points)
 	regress    []string     // findings of the per-Commit store check (under mu)
 	foreign    []string     // BatchWriteDone calls that came from another writer's goroutine (under mu)
+	misuse     []string     // uses of a batch handle after its owner gave it back by Commit/Cancel (under mu)
 	compacted  int          // empty N/X pairs dropped from the log (a time-out <= 0 makes an idle writer spin)
 	// store-fault family: what the callers had done when the fault fired (evidence only)
 	flushCalled, stopCalled atomic.Bool
@@ -276,6 +279,17 @@ func (m *mon) copyEvs() []ev {
 func (m *mon) loopedEmptySince(l0 int64) bool { return m.emptyLoops.Load() >= l0+2 }
 
 func fmtEv(t int, e ev) string {
+	if e.P == -3 {
+		// user code on the writer goroutine (BatchWrite/BatchWriteDone of an object)
+		switch e.K {
+		case 'E':
+			return fmt.Sprintf("%d writer/callback Enqueue(obj%d) called, version %d", t, e.O, e.V)
+		case 'e':
+			return fmt.Sprintf("%d writer/callback Enqueue(obj%d) returned", t, e.O)
+		case 'F':
+			return fmt.Sprintf("%d writer/callback Flush", t)
+		}
+	}
 	switch e.K {
 	case 'E':
 		return fmt.Sprintf("%d actor%d Enqueue(obj%d) called, version %d", t, e.P, e.O, e.V)
@@ -327,6 +341,9 @@ type obj struct {
 	scheduled atomic.Bool
 	fmu       sync.Mutex
 	dup       *gate // set before the goroutines that may reach it are started
+	// cb, when set, is user code run at the end of BatchWrite ("write") and of BatchWriteDone
+	// ("done"), i.e. on the writer goroutine (re-entrancy family)
+	cb func(o *obj, where string)
 }
 
 func (o *obj) BatchWrite(bm kvstore.BatchedMutations) {
@@ -356,6 +373,9 @@ func (o *obj) BatchWrite(bm kvstore.BatchedMutations) {
 	if err := bm.Set(o.key, buf[:]); err != nil {
 		panic(err)
 	}
+	if o.cb != nil {
+		o.cb(o, "write")
+	}
 }
 func (o *obj) BatchWriteDone() {
 	// a gated schedule may hold the writer inside the first acknowledgement of a run (a slow
@@ -373,6 +393,9 @@ func (o *obj) BatchWriteDone() {
 	if g := o.s.doneGate; g != nil && g.used.CompareAndSwap(false, true) {
 		close(g.reached)
 		<-g.release
+	}
+	if o.cb != nil {
+		o.cb(o, "done")
 	}
 }
 func (o *obj) BatchWriteScheduled() bool {
@@ -416,6 +439,11 @@ type wstore struct {
 	nb atomic.Int32
 	// highest version committed per key; only touched by the writer goroutine (inside Commit)
 	maxCommitted map[string]int64
+	// The store recycles its batch handles, as a pooling store may: a handle given back by a
+	// successful Commit or by Cancel goes to the free list and the next Batched() hands the same
+	// handle out again. Whoever touches a handle after giving it back touches somebody else's batch.
+	fmu  sync.Mutex
+	free []*wmuts
 }
 
 func (w *wstore) Batched() (kvstore.BatchedMutations, error) {
@@ -430,7 +458,47 @@ func (w *wstore) Batched() (kvstore.BatchedMutations, error) {
 	}
 	id := int(w.nb.Add(1))
 	w.m.wlog(ev{K: 'N', P: -1, B: id})
+	w.fmu.Lock()
+	defer w.fmu.Unlock()
+	if n := len(w.free); n > 0 {
+		h := w.free[n-1]
+		w.free = w.free[:n-1]
+		h.BatchedMutations, h.id, h.nset, h.released = inner, id, 0, false
+		clear(h.sets)
+		w.s.recycled.Add(1)
+		return h, nil
+	}
 	return &wmuts{BatchedMutations: inner, id: id, m: w.m, st: w, sets: map[string]int64{}}, nil
+}
+
+// giveBack: the owner is done with the handle (successful Commit, or Cancel).
+func (w *wmuts) giveBack() {
+	w.st.fmu.Lock()
+	w.released = true
+	w.st.free = append(w.st.free, w)
+	w.st.fmu.Unlock()
+}
+
+// stale reports a call on a handle its owner had already given back.
+func (w *wmuts) stale(call string) bool {
+	w.st.fmu.Lock()
+	rel, id := w.released, w.id
+	w.st.fmu.Unlock()
+	if !rel {
+		return false
+	}
+	w.m.mu.Lock()
+	w.m.misuse = append(w.m.misuse, fmt.Sprintf("%s on the handle of batch%d after that batch had been committed/cancelled and the handle given back to the store (a store that recycles its handles hands it to the next Batched() caller)", call, id))
+	w.m.mu.Unlock()
+	return true
+}
+
+func (w *wmuts) Delete(key kvstore.Key) error {
+	if w.stale("Delete") {
+		return nil
+	}
+	delete(w.sets, string(key))
+	return w.BatchedMutations.Delete(key)
 }
 
 type wmuts struct {
@@ -440,9 +508,13 @@ type wmuts struct {
 	st   *wstore
 	sets map[string]int64 // mirrors the mutations object: key -> version to be written by Commit
 	nset int              // Set calls received
+	released bool         // under st.fmu
 }
 
 func (w *wmuts) Set(key kvstore.Key, value kvstore.Value) error {
+	if w.stale("Set") {
+		return nil
+	}
 	w.nset++
 	if len(value) == 8 {
 		w.sets[string(key)] = int64(binary.BigEndian.Uint64(value))
@@ -451,6 +523,9 @@ func (w *wmuts) Set(key kvstore.Key, value kvstore.Value) error {
 }
 
 func (w *wmuts) Commit() error {
+	if w.stale("Commit") {
+		return nil
+	}
 	w.m.wlog(ev{K: 'C', P: -1, B: w.id})
 	if w.st.s.faultHit("commit") {
 		// this one Commit call fails: nothing is applied; the mutations object itself stays usable
@@ -475,9 +550,14 @@ func (w *wmuts) Commit() error {
 		}
 	}
 	w.m.wlog(ev{K: 'c', P: -1, B: w.id})
+	w.giveBack()
 	return nil
 }
 func (w *wmuts) Cancel() {
+	if w.stale("Cancel") {
+		return
+	}
+	defer w.giveBack()
 	clear(w.sets)
 	w.m.wlog(ev{K: 'X', P: -1, B: w.id})
 	w.BatchedMutations.Cancel()
@@ -530,6 +610,9 @@ type scen struct {
 	beforeStop <-chan struct{}
 	// store-fault family
 	faultCalls atomic.Int32 // calls of the faulted kind so far
+	recycled   atomic.Int64 // Batched() calls served with a recycled handle
+	// re-entrancy family: calls made from BatchWrite/BatchWriteDone (writer goroutine)
+	reent [6]atomic.Int64
 	faultFired atomic.Bool
 }
 
@@ -1063,6 +1146,11 @@ func (s *scen) finishWait() (ok bool) {
 					if strings.HasPrefix(wg.State, "chan receive") {
 						decided = fpStopRecv
 					}
+					if inCall(wg, "Flush") || inCall(wg, "Enqueue") {
+						// the writer goroutine itself sits inside an exported call made by user code
+						// (BatchWrite/BatchWriteDone) and never comes back
+						decided = fpStopReent
+					}
 				case len(waiting) > 0 && s.settled():
 					// R5
 					if n := s.m.emptyLoops.Load(); spinBase < 0 {
@@ -1249,7 +1337,11 @@ func (s *scen) analyze() *analysis {
 	an.empty += s.m.compacted
 	regress := append([]string(nil), s.m.regress...)
 	foreign := append([]string(nil), s.m.foreign...)
+	misuse := append([]string(nil), s.m.misuse...)
 	s.m.mu.Unlock()
+	if len(misuse) > 0 {
+		add(fpHandle, "%s; %d such calls in this run", misuse[0], len(misuse))
+	}
 	if len(foreign) > 0 {
 		add(fpForeignDone, "%s; %d such calls in this run", foreign[0], len(foreign))
 	}
@@ -1421,6 +1513,8 @@ func (s *scen) report(extraKey string) []string {
 			viol(a.hung, fmt.Sprintf("actor%d is blocked for ever in StopBatchWriter (parked waiting for the writer): every other caller has returned and the writer goroutine sat in a plain channel receive inside package kvstore without any writer-side event for more than %s (500x the configured batch time-out, at least 2 s) – nobody is left who could send and a timer would have fired long ago", a.idx, s.cs.idleBound()), a.dump)
 		case fpStopSpin:
 			viol(a.hung, fmt.Sprintf("actor%d is blocked for ever in StopBatchWriter (parked waiting for the writer): every other caller has returned, no object is scheduled and every BatchWrite was committed and acknowledged, yet the writer went through more than %d further empty Batched/Cancel cycles without exiting (unchanged tree: at most one)", a.idx, spinBound), a.dump)
+		case fpStopReent:
+			viol(a.hung, fmt.Sprintf("actor%d is blocked for ever in StopBatchWriter (parked waiting for the writer): every other caller has returned and the writer goroutine is parked in library code inside Flush/Enqueue called by an object's BatchWrite/BatchWriteDone, without any writer-side event for more than %s – on the unchanged tree such a call returns (Flush never blocks; Enqueue with room in the queue does not either)", a.idx, s.cs.idleBound()), a.dump)
 		case fpStopIdle:
 			viol(a.hung, fmt.Sprintf("actor%d is blocked for ever in StopBatchWriter (parked waiting for the writer): every other caller has returned and the writer goroutine sat in the select of collectValues without any writer-side event for more than %s (500x the configured batch time-out %s, at least 2 s) – a batch timer would have fired long ago, so none is pending", a.idx, s.cs.idleBound(), s.cs.timeout()), a.dump)
 		}
@@ -1439,6 +1533,11 @@ func (s *scen) report(extraKey string) []string {
 		c.Count("runs_queue_large", 1)
 	}
 	c.Count("snapshots", s.snaps)
+	c.Count("batch_handles_recycled", int(s.recycled.Load()))
+	for i, n := range []string{"flush", "enqueue-other", "enqueue-self"} {
+		c.Count("reentrant_calls_from_callback:"+n+":writer-running", int(s.reent[2*i].Load()))
+		c.Count("reentrant_calls_from_callback:"+n+":stop-invoked", int(s.reent[2*i+1].Load()))
+	}
 	if cs.Bare {
 		// no log: final store check only for the single-goroutine enqstop shape
 		if cs.Kind == "enqstop" {
@@ -1503,6 +1602,8 @@ func runCase(c *vf.Ctx, cs *caseRec) (fps []string, ok bool) {
 		return runPair(c, cs)
 	case "flushk":
 		return runFlushK(c, cs)
+	case "reent":
+		return runReent(c, cs)
 	case "stress":
 		return runStress(c, cs)
 	}
@@ -1734,6 +1835,122 @@ func runSlowDone(c *vf.Ctx, cs *caseRec) ([]string, bool) {
 		return nil, false
 	}
 	return s.report("slowdone"), !s.abortAfter
+}
+
+// runReent: user code on the writer goroutine calls back into the SAME writer. Every primary
+// object's BatchWrite (Point "write") or BatchWriteDone (Point "done") calls, by a seeded plan,
+// Flush(), Enqueue(another, fresh object) and/or Enqueue(itself, new version) – each at most once.
+// The queue is large (256), so on the unchanged tree all of these return: Flush never blocks, Enqueue
+// only sends into a queue with room (with a full queue the writer would wait for itself – not
+// driven, not demanded), and after StopBatchWriter was invoked Enqueue returns without touching the
+// object. Release "free": the callbacks run while the writer is running, Stop follows once the
+// writer has settled. Release "held": the writer is held inside the first BatchWriteDone until Stop
+// is parked waiting for it, so the remaining callbacks run while Stop drains. Verdict: the ordinary
+// log oracle (an Enqueue made by a callback that returned before Stop counts like any other) and
+// the permanence rules (a writer goroutine that never comes back from such a call: R3).
+func runReent(c *vf.Ctx, cs *caseRec) ([]string, bool) {
+	n := cs.InFlight
+	s := newScen(c, cs, 2*n)
+	held := cs.Release == "held"
+	g := &gate{reached: make(chan struct{}), release: make(chan struct{})}
+	if held {
+		s.doneGate = g
+	}
+	cur.Store(s)
+	defer cur.Store(nil)
+	rng := rand.New(rand.NewSource(cs.CaseSeed))
+	type plan struct {
+		flush, other, self bool
+		otherDone, selfDone bool // writer goroutine only
+	}
+	plans := make([]*plan, n)
+	for i := range plans {
+		pl := &plan{flush: rng.Intn(2) == 0, other: rng.Intn(2) == 0, self: rng.Intn(3) == 0}
+		if !pl.flush && !pl.other && !pl.self {
+			pl.flush = true
+		}
+		plans[i] = pl
+	}
+	fromCb := func(o *obj) {
+		v := o.version.Add(1)
+		s.m.log(ev{K: 'E', P: -3, O: o.id, V: v})
+		s.bw.Enqueue(o)
+		s.m.log(ev{K: 'e', P: -3, O: o.id})
+	}
+	cb := func(o *obj, where string) {
+		if o.id >= n || where != cs.Point {
+			return
+		}
+		pl, k := plans[o.id], 0
+		if s.m.stopCalled.Load() {
+			k = 1
+		}
+		if pl.flush {
+			s.m.log(ev{K: 'F', P: -3})
+			s.bw.Flush()
+			s.reent[0+k].Add(1)
+		}
+		if pl.other && !pl.otherDone {
+			pl.otherDone = true
+			fromCb(s.objs[n+o.id])
+			s.reent[2+k].Add(1)
+		}
+		if pl.self && !pl.selfDone {
+			pl.selfDone = true
+			fromCb(o)
+			s.reent[4+k].Add(1)
+		}
+	}
+	for _, o := range s.objs {
+		o.cb = cb
+	}
+	s.self("main")
+	p := s.spawn("producer", 0, nil, func(a *actor) {
+		for i := 0; i < n; i++ {
+			s.enqueue(a, s.objs[i])
+		}
+	})
+	w := waiter{m: s.m}
+	if held {
+		for !closed(g.reached) {
+			if !w.pause() {
+				c.Inconclusive(cs.name() + ": case guard expired waiting for the first BatchWriteDone")
+				return nil, false
+			}
+		}
+		if !s.probeWriter() {
+			close(g.release)
+			return nil, false
+		}
+		st := s.spawn("stopper", 0, nil, func(a *actor) { s.stop(a) })
+		for !closed(st.done) {
+			if sg, found := gdump.Find(s.snapshot(), st.gid.Load()); found && inStopWait(sg) {
+				break
+			}
+			if !w.pause() {
+				c.Inconclusive(cs.name() + ": case guard expired waiting for StopBatchWriter to return or park")
+				close(g.release)
+				return nil, false
+			}
+		}
+		close(g.release)
+	} else {
+		for !closed(p.done) {
+			if !w.pause() {
+				c.Inconclusive(cs.name() + ": case guard expired waiting for the producer")
+				return nil, false
+			}
+		}
+		if !s.probeWriter() || !s.waitSettled(&w) {
+			return nil, false
+		}
+		s.spawn("stopper", 0, nil, func(a *actor) { s.stop(a) })
+	}
+	c.Count("reent_rounds", 1)
+	if !s.finishWait() {
+		return nil, false
+	}
+	return s.report("reent/" + cs.Point + "/" + cs.Release), !s.abortAfter
 }
 
 // runMulti: 2-3 BatchedWriters over separate stores are alive at the same time, constructed one
@@ -2547,6 +2764,22 @@ func genCases(c *vf.Ctx) (plain, race, onep, onepRace, faults []caseRec) {
 			plain = append(plain, cs)
 		}
 	}
+	// re-entrancy family: queue 256 only (with a full queue an Enqueue made by the writer goroutine
+	// waits for itself on the unchanged tree)
+	for rep := c.Pick(3, 40); rep > 0; rep-- {
+		for _, cf := range cfgs {
+			if cf.q < 256 {
+				continue
+			}
+			for _, where := range []string{"write", "done"} {
+				for _, rel := range []string{"free", "held"} {
+					cs := mk("reent", cf)
+					cs.Point, cs.Release, cs.InFlight = where, rel, 2+rng.Intn(4)
+					plain = append(plain, cs)
+				}
+			}
+		}
+	}
 	// Store-fault family (plain build, own shards: the unchanged writer panics on a store error, so
 	// nearly every case ends its process). A case borrows the schedule of another family and makes
 	// ONE store call fail: the k-th BatchedMutations.Commit, the k-th store.Batched(), or the k-th
@@ -2931,6 +3164,12 @@ func run(c *vf.Ctx) {
 	}
 	c.Require("runs_batch_larger_than_objects", par(c.Pick(700, 8000)))
 	c.Require("runs_queue_large", par(c.Pick(700, 8000)))
+	c.Require("reent_rounds", c.Pick(200, 3000))
+	c.Require("reentrant_calls_from_callback:flush:stop-invoked", c.Pick(60, 800))
+	c.Require("reentrant_calls_from_callback:flush:writer-running", c.Pick(100, 1500))
+	c.Require("reentrant_calls_from_callback:enqueue-other:writer-running", c.Pick(100, 1500))
+	c.Require("reentrant_calls_from_callback:enqueue-self:writer-running", c.Pick(50, 800))
+	c.Require("batch_handles_recycled", c.Pick(5000, 50000))
 	// store-fault family: faults that really fired, per observable trigger of the failing Commit
 	// (full batch / partial batch, with and without a Flush request, with Stop already invoked)
 	c.Require("fault_fired", c.Pick(250, 2500))
